@@ -16,6 +16,11 @@
 (*   txLen   0 / 1   (1 = a reply is staged)                udpJob.txLen   *)
 (*   replay  the inline pass handed this job off            udpJob.replay  *)
 (*   jb      the burst the job stages into while served     udpJob.burst   *)
+(*   ew      the client cookie sitting in the job-owned edns writer slot    *)
+(*           (udpJob.ednsWriter.cookieRaw/hasCookieRaw; None = zeroed):     *)
+(*           the packet it was copied from.  release() never touches it.    *)
+(*   txck    the packet whose client cookie the COOKIE option of the bytes  *)
+(*           in the TX buffer was built from (None = no COOKIE option)      *)
 (* and two per-lease ghosts: wrote (the serve of this lease wrote a reply) *)
 (* and sends (datagrams transmitted from this slab during this lease).     *)
 (***************************************************************************)
@@ -23,11 +28,14 @@ EXTENDS Naturals
 CONSTANTS
   None,          \* "no packet / no address / no burst"
   ScrubTxLen,    \* release() does `j.txLen = 0`          (FALSE = mutant)
-  ResetRawSA     \* portable read does `j.rawSALen = 0`   (FALSE = mutant)
+  ResetRawSA,    \* portable read does `j.rawSALen = 0`   (FALSE = mutant)
+  ResetSlot      \* edns serveWire's deferred `*rw = ResponseWriter{}` zeroes the whole job-owned
+                 \* writer slot (FALSE = mutant: cookieRaw / hasCookieRaw survive the request)
 
 FreshSlab ==
   [state |-> "free", rx |-> None, raddr |-> None, rawSA |-> None,
    tx |-> None, txLen |-> 0, replay |-> FALSE, jb |-> None,
+   ew |-> None, txck |-> None,
    wrote |-> FALSE, sends |-> 0]
 
 States == {"free", "reading", "queued", "serving"}
@@ -52,8 +60,22 @@ OpServeBegin(s, b) == [s EXCEPT !.state = "serving", !.jb = b]
 (* serveInline(): transition(reading, serving); j.burst = reader's burst *)
 OpInlineBegin(s, b) == [s EXCEPT !.state = "serving", !.jb = b]
 
-(* udpJob.Write with a burst: the reply for the packet in RX is staged *)
-OpStage(s) == [s EXCEPT !.tx = s.rx, !.txLen = 1, !.wrote = TRUE]
+(* udpJob.Write with a burst: the reply for the packet in RX is staged     *)
+(* (an in-place rejection, or any reply without a COOKIE option)           *)
+OpStage(s) == [s EXCEPT !.tx = s.rx, !.txLen = 1, !.wrote = TRUE, !.txck = None]
+
+(* What EDNS the packet carried: "none" | "plain" (an OPT, no cookie) |     *)
+(* "cookie".  middleware/edns serveWire on the job-owned slot: every field  *)
+(* but the cookie pair is assigned from the request, cookieRaw/hasCookieRaw *)
+(* only when the request carries a cookie; the reply's OPT is built from    *)
+(* the slot while the chain runs; the deferred reset zeroes the slot.       *)
+(* The always-assigned fields (size, DO, NSID and keepalive wishes) are a   *)
+(* function of the current request by construction and carry no state here; *)
+(* the trace specs check them on the recorded bytes.                        *)
+OpEdnsEnter(s, opt) == [s EXCEPT !.ew = IF opt = "cookie" THEN s.rx ELSE @]
+OpEdnsLeave(s)      == [s EXCEPT !.ew = IF ResetSlot THEN None ELSE @]
+ReplyCookie(s, opt) == IF opt = "none" THEN None ELSE s.ew
+OpStageOpt(s, opt)  == [OpStage(s) EXCEPT !.txck = ReplyCookie(s, opt)]
 
 (* udpJob.Write without a burst (overflow goroutine): bytes leave at once *)
 OpWriteNow(s) == [s EXCEPT !.wrote = TRUE, !.sends = @ + 1]
